@@ -16,9 +16,10 @@ spec_uri_parts g_uc_parts;                            /* which pieces the refere
 int g_uc_last;                                        /* id of the piece emitted last (0 = none yet) */
 size_t g_uc_written;                                  /* characters written so far */
 int g_uc_calls;
+int g_uc_host_is_v6;                                  /* harness: the host is an IPv6 literal (contains ':') - a URL needs it in brackets (RFC 3986 IP-literal) */
 
 size_t KSI_snprintf(char *buf, size_t n, const char *format, ...) {
-	va_list va; int id; size_t r; const char *a1 = NULL, *a2 = NULL; int d = 0;
+	va_list va; int id, bracketed; size_t r; const char *a1 = NULL, *a2 = NULL; int d = 0;
 	g_uc_calls++;
 	__CPROVER_assert(buf == g_uc_buf + g_uc_written && n == g_uc_len - g_uc_written && g_uc_written < g_uc_len,
 		"every piece is written right after the previous one and the window ends exactly at the end of the caller's buffer");
@@ -29,12 +30,15 @@ size_t KSI_snprintf(char *buf, size_t n, const char *format, ...) {
 	     (format[0] == '%' && format[1] == 's' && format[2] == '%' && format[3] == 's' && format[4] == 0) ? 5 :
 	     (format[0] == '?' && format[1] == '%' && format[2] == 's' && format[3] == 0) ? 6 :
 	     (format[0] == '#' && format[1] == '%' && format[2] == 's' && format[3] == 0) ? 7 : -1;
+	bracketed = (format[0] == '[' && format[1] == '%' && format[2] == 's' && format[3] == ']' && format[4] == 0);
+	if (bracketed) id = 3;
 	__CPROVER_assert(id == spec_uri_next_piece(&g_uc_parts, g_uc_last), "pieces come in the reference order scheme, [user:pass@], host, :port, path, ?query, #fragment; absent ones are skipped, nothing else is written");
 	va_start(va, format);
 	if (id == 4) d = va_arg(va, int); else { a1 = va_arg(va, const char *); if (id == 2 || id == 5) a2 = va_arg(va, const char *); }
 	va_end(va);
 	__CPROVER_assert(IMPLIES(id == 1, a1 == g_uc_scheme) && IMPLIES(id == 2, a1 == g_uc_user && a2 == g_uc_pass) && IMPLIES(id == 3, a1 == g_uc_host) &&
 		IMPLIES(id == 4, (unsigned)d == g_uc_port) && IMPLIES(id == 6, a1 == g_uc_query) && IMPLIES(id == 7, a1 == g_uc_fragment), "each piece prints its own component");
+	__CPROVER_assert(IMPLIES(id == 3, bracketed == (g_uc_host_is_v6 != 0)), "the host is preserved as a URL host: an IPv6 literal goes between brackets, anything else is printed as it is");
 	__CPROVER_assert(IMPLIES(id == 5, a2 == g_uc_path && (g_uc_path[0] == '/' ? a1[0] == 0 : (a1[0] == '/' && a1[1] == 0))), "the path is prefixed with exactly one '/' when it does not start with one");
 	g_uc_last = id;
 	r = nondet_size();
